@@ -1,0 +1,32 @@
+//go:build verif
+// +build verif
+
+// More exports for the version-layer driver of the external verification harness (/verif, property
+// C07): commits with the trivial flag of table compactions, the ids of the held references, and the
+// two facts of the session's manifest state that decide which record setVersion turns into the delta.
+// Compiled only with -tags verif; add-only.
+
+package leveldb
+
+// CommitT runs the real session.commit(rec, trivial) with a record that adds and deletes the given
+// tables (db_compaction.go commits table compactions with trivial = true).
+func (vl *VerifVersionLayer) CommitT(added []VerifTable, deleted []VerifTable, trivial bool) error {
+	rec := &sessionRecord{}
+	for _, t := range added {
+		vl.s.markFileNum(t.Num)
+		rec.addTable(t.Level, t.Num, t.Size, internalKey(t.Imin), internalKey(t.Imax))
+	}
+	for _, t := range deleted {
+		rec.delTable(t.Level, t.Num)
+	}
+	return vl.s.commit(rec, trivial)
+}
+
+// HeldID is the id of the version the i-th held reference (Acquire) points to.
+func (vl *VerifVersionLayer) HeldID(i int) int64 { return vl.held[i].id }
+
+// HasManifest reports whether the session has a manifest writer (session.manifest != nil).
+func (vl *VerifVersionLayer) HasManifest() bool { return vl.s.manifest != nil }
+
+// NextVersionID is session.ntVersionID.
+func (vl *VerifVersionLayer) NextVersionID() int64 { return vl.s.ntVersionID }
